@@ -301,7 +301,7 @@ def run_c11(res, tier, seed):
     res.cov["samples"] += [{"history": model_reqs[1][:300], "inputs": lo[plan[1][2]][:300]}]
 
 
-PROOF_MODULES = {"C11": ["Glas.Props.C11"]}
+PROOF_MODULES = {"C11": ["Glas.Props.C11", "Glas.Props.C11Collect"]}
 
 
 def run_multi_package_determinism(res, tier, seed):
@@ -434,6 +434,15 @@ def run(prop, res, tier, seed):
     run_c11(res, tier, seed)
     run_multi_package_determinism(res, tier, seed)
     run_query_order(res, tier, seed)
+    # the tie of M-collect (the order-independence theorems of Props/C11Collect.lean speak about it) to Collector::collect
+    import p_sweep
+    n_dis = len(res.disagreements)
+    p_sweep.run_collect(res, tier, seed)
+    if len(res.disagreements) > n_dis:
+        rq, a, b = res.disagreements[n_dis]
+        res.add_broken("correspondence model-vs-implementation (M-collect vs Collector::collect through ide::verif_collect_script)",
+                       f"{len(res.disagreements) - n_dis} disagreeing cases; first: {rq} impl={a!r} model={b!r}")
+        del res.disagreements[n_dis:]
     if res.disagreements:
         rq, a, b = res.disagreements[0]
         res.add_broken("correspondence model-vs-implementation (M-db vs AnalysisHost::verif_inputs)",
